@@ -178,14 +178,15 @@ theorem stump_add_refines : stump_add_refines_statement H :=
   fun nonZero F s adds hph hr hn hlt hlive hadds =>
     add_refines nonZero F s adds hph hr hn hlt hlive hadds
 
-/-- the same under the collision-freeness bundle `CR` -/
-theorem stump_add_refines_CR (cr : CR H) (nonZero : H) (F : Forest H) (s : Stump H) (adds : List H)
+/-- the same under the bundled hypothesis `NZ` (parent hashes are never the zero hash; the name
+of the theorem is historical: it used to take the collision-freeness bundle `CR`) -/
+theorem stump_add_refines_CR (nz : NZ H) (nonZero : H) (F : Forest H) (s : Stump H) (adds : List H)
     (hr : s.roots = F.roots) (hn : s.numLeaves = BitVec.ofNat 64 F.numLeaves)
     (hlt : F.numLeaves + adds.length < 2 ^ 64)
     (hlive : ∀ y ∈ F.liveLeaves, y ≠ (zero : H)) (hadds : ∀ y ∈ adds, y ≠ (zero : H)) :
     ∃ upd td, s.add nonZero adds =
       .ok (⟨(F.addMany adds).roots, BitVec.ofNat 64 (F.numLeaves + adds.length)⟩, upd, td) :=
-  stump_add_refines nonZero F s adds cr.nonzero hr hn hlt hlive hadds
+  stump_add_refines nonZero F s adds nz.nonzero hr hn hlt hlive hadds
 
 /-- one addition on the roots: with `t` trailing one digits in the leaf count, the last `t`
 roots are merged from the right with the new leaf, skipping all-zero roots -/
@@ -230,7 +231,7 @@ slots, every deletion subset in two orders and 0–3 additions: 26 240 cases, no
 def stump_update_refines_statement (H : Type) [DecidableEq H] [Hasher H] : Prop :=
   ∀ (nonZero : H) (F : Forest H) (s : Stump H) (dels adds : List H) (targets : List Pos)
     (proof : List H),
-    CR H → nonZero ≠ (zero : H) →
+    NZ H → nonZero ≠ (zero : H) →
     s.roots = F.roots → s.numLeaves = BitVec.ofNat 64 F.numLeaves →
     F.numLeaves + adds.length ≤ 2 ^ 63 →
     F.liveLeaves.Nodup → (∀ x ∈ F.liveLeaves, x ≠ (zero : H) ∧ ∀ a b : H, x ≠ ph a b) →
